@@ -150,8 +150,10 @@ def x86_matches(pat, op):
         return False
     if o != "*" and (o is not None) != ho:
         return False
-    if i != "*" and (i is not None) != hi:
-        return False
+    if i != "*":
+        # a pattern naming the index class gpr wants a general-purpose index; "v" = vector (VSIB) index
+        if (i is None and hi) or (i is not None and hi is not True):
+            return False
     if s != "*" and not (s == sc or (s != 1 and sc != 1)):
         return False
     return True
@@ -182,7 +184,7 @@ def x86_op_text(op, v=0):
         return ["8", "64", "0x40"][v % 3]
     s += "(" + ("%rbx" if hb else "")
     if hi:
-        s += ",%rsi," + str(sc)
+        s += ("," + ["%ymm1", "%xmm3", "%zmm2"][v % 3] if hi == "v" else ",%rsi") + "," + str(sc)
     return s + ")"
 
 
@@ -431,6 +433,12 @@ def match_cases(draw, isa):
     miss_at = draw(st.integers(0, max(0, len(tgt["pats"]) - 1))) if mode == "miss1" and tgt["pats"] else None
     for i, p in enumerate(tgt["pats"]):
         ops.append(draw(opfor(p, miss_at == i)))
+    if isa == "x86" and mode in ("exact", "miss1") and draw(st.integers(0, 5)) == 0:
+        # gather/scatter addressing: a vector register as index is another operand kind than a gpr index
+        for o_ in ops:
+            if o_ and o_[0] == "mem" and o_[3] is True:
+                o_[3] = "v"
+                break
     if mode == "count":
         if ops and draw(st.booleans()):
             ops = ops[:-1]
